@@ -60,6 +60,8 @@ type tap struct {
 	// before runs between the emission of a request (makeRequest) and the registration of the pull: the place where
 	// the answer to an earlier pull can arrive on another goroutine
 	before func(h common.Hash128)
+	// inHas runs at the start of every Has call the tracker makes
+	inHas func(h common.Hash128)
 }
 
 func (w *tap) RegisterPull(h common.Hash128) {
@@ -72,8 +74,25 @@ func (w *tap) RegisterPull(h common.Hash128) {
 func (w *tap) AddPendingPush(id peer.ID, h common.Hash128) { w.real.AddPendingPush(id, h) }
 func (w *tap) Requests() chan pushpull.PendingPulls        { return w.out }
 func (w *tap) Run()                                        { w.real.Run() }
-func (w *tap) SetHolder(h pushpull.Holder)                 { w.real.SetHolder(h) }
-func (w *tap) RemovePull(h common.Hash128)                 { w.real.RemovePull(h) }
+func (w *tap) SetHolder(h pushpull.Holder) {
+	// the tracker looks items up through a wrapper that forwards every call; its Has is the place where an event on
+	// another goroutine can fall inside the tracker loop's look-up
+	w.real.SetHolder(&hasTap{Holder: h, tap: w})
+}
+func (w *tap) RemovePull(h common.Hash128) { w.real.RemovePull(h) }
+
+// hasTap forwards to the holder; inHas (set by the harness) runs first when the tracker's loop asks.
+type hasTap struct {
+	pushpull.Holder
+	tap *tap
+}
+
+func (h *hasTap) Has(hash common.Hash128) bool {
+	if f := h.tap.inHas; f != nil {
+		f(hash)
+	}
+	return h.Holder.Has(hash)
+}
 
 type annRec struct {
 	peer, hash int
@@ -85,6 +104,7 @@ type reqRec struct {
 	peer, hash int
 	at         time.Duration
 	followup   bool // emitted by the tracker (delayed path), not inside an announcing call
+	skipped    bool // the attempt met a full outgoing queue (stalled sender): the manager skips it by design
 }
 
 type hstate struct {
@@ -107,7 +127,8 @@ type poolHolder struct {
 	tr  pushpull.PendingPushTracker
 }
 
-func (p *poolHolder) Add(hash common.Hash128, entry interface{}, shardId common.ShardId, highPriority bool) {}
+func (p *poolHolder) Add(hash common.Hash128, entry interface{}, shardId common.ShardId, highPriority bool) {
+}
 func (p *poolHolder) store(hash common.Hash128, entry interface{}) {
 	p.mu.Lock()
 	p.set[hash] = entry
@@ -125,8 +146,8 @@ func (p *poolHolder) Get(hash common.Hash128) (interface{}, common.ShardId, bool
 	e, ok := p.set[hash]
 	return e, common.MultiShard, false, ok
 }
-func (p *poolHolder) MaxParallelPulls() uint32                  { return 1 }
-func (p *poolHolder) SupportPendingRequests() bool              { return true }
+func (p *poolHolder) MaxParallelPulls() uint32                 { return 1 }
+func (p *poolHolder) SupportPendingRequests() bool             { return true }
 func (p *poolHolder) PushTracker() pushpull.PendingPushTracker { return p.tr }
 
 type world struct {
@@ -153,6 +174,19 @@ type world struct {
 	overlap  bool                      // two hashes had pending announcers at the same time
 	excluded bool
 	trace    []string
+
+	// stalled sender: the manager's outgoing queue is full of requests nobody reads
+	stalled  bool
+	nStalls  int
+	nSkipped int
+	// an event armed to happen on another goroutine while the tracker loop is inside holder.Has
+	inStep   int32
+	armed    *action
+	firing   int32
+	bg       sync.WaitGroup
+	nInHas   int
+	inHasAnn *annRec
+	raceful  bool // an in-Has announcement was made: its position relative to the loop's next iteration is not owned
 }
 
 func inconclusive(msg string) {
@@ -230,6 +264,15 @@ func newWorldWith(t tb, delay time.Duration, nHashes, nPeers int, poolLike bool)
 		hs.grace = 1
 		evid.Count("a.arrival.in-flight")
 	}
+	w.tap.inHas = func(h common.Hash128) {
+		if atomic.LoadInt32(&w.inStep) == 0 || w.armed == nil || !atomic.CompareAndSwapInt32(&w.firing, 0, 1) {
+			return
+		}
+		a := *w.armed
+		w.armed = nil
+		w.fireInHas(a, h)
+		atomic.StoreInt32(&w.firing, 0)
+	}
 	w.maxPar = int(w.holder.MaxParallelPulls())
 	w.mgr = protocol.NewPushPullManager()
 	w.mgr.AddEntryHolder(pushTyp, w.holder)
@@ -272,12 +315,18 @@ func fmtPending(l []pushpull.VerifC20Pending) string {
 // per-request clauses. inCall is the announcement being made (nil outside one).
 func (w *world) collect(followup bool, inCall *annRec) int {
 	n := 0
+	if w.stalled {
+		return 0 // nobody reads the outgoing queue
+	}
 	for {
 		select {
 		case r := <-w.mgr.Requests():
 			id, typ, h := protocol.VerifC20Unpack(r)
+			if typ == fillerTyp {
+				continue
+			}
 			n++
-			w.onRequest(id, typ, h, followup, inCall)
+			w.onRequest(id, typ, h, followup, inCall, false)
 			if w.excluded {
 				return n
 			}
@@ -287,7 +336,9 @@ func (w *world) collect(followup bool, inCall *annRec) int {
 	}
 }
 
-func (w *world) onRequest(id peer.ID, typ uint8, h common.Hash128, followup bool, inCall *annRec) {
+// skipped: the attempt was made while the outgoing queue was full (the manager drops it with a warning and still
+// registers the pull); it is this announcer's turn all the same and is evaluated like an emitted request.
+func (w *world) onRequest(id peer.ID, typ uint8, h common.Hash128, followup bool, inCall *annRec, skipped bool) {
 	now := w.now()
 	hi, okh := w.hashIdx[h]
 	pi, okp := w.peerIdx[id]
@@ -300,6 +351,11 @@ func (w *world) onRequest(id peer.ID, typ uint8, h common.Hash128, followup bool
 	if followup {
 		kind = "follow-up"
 	}
+	if skipped {
+		kind += " (skipped: outgoing queue full)"
+		w.nSkipped++
+		evid.Count("a.req.skipped-by-full-queue")
+	}
 	w.logf("    -> %s request to P%d for h%d", kind, pi, hi)
 	if inCall != nil && (inCall.peer != pi || inCall.hash != hi) {
 		w.fail("P1", "announce(P%d,h%d) emitted a request to P%d for h%d", inCall.peer, inCall.hash, pi, hi)
@@ -309,7 +365,7 @@ func (w *world) onRequest(id peer.ID, typ uint8, h common.Hash128, followup bool
 	if hs.arrived && hs.grace > 0 {
 		// emitted before the in-flight arrival, collected after it
 		hs.grace--
-		hs.reqs = append(hs.reqs, reqRec{peer: pi, hash: hi, at: now, followup: followup})
+		hs.reqs = append(hs.reqs, reqRec{peer: pi, hash: hi, at: now, followup: followup, skipped: skipped})
 		return
 	}
 	if hs.arrived {
@@ -359,7 +415,7 @@ func (w *world) onRequest(id peer.ID, typ uint8, h common.Hash128, followup bool
 	} else {
 		evid.Count("a.req.immediate")
 	}
-	hs.reqs = append(hs.reqs, reqRec{peer: pi, hash: hi, at: now, followup: followup})
+	hs.reqs = append(hs.reqs, reqRec{peer: pi, hash: hi, at: now, followup: followup, skipped: skipped})
 }
 
 func (w *world) sizes() (pending, active, mgr int) {
@@ -413,9 +469,28 @@ func (w *world) announce(pi, hi int) {
 		w.fail("P2", "announce(P%d,h%d) emitted %d requests", pi, hi, n)
 		return
 	}
+	if w.stalled && n == 0 && p1 == p0 {
+		// nothing emitted and nothing queued: the announcer's immediate turn fell into the stall (the manager skips the
+		// request and registers the pull, so that later announcers are queued behind it) - or the announcer was lost
+		if ts, ok := w.tracker.VerifC20ActivePulls()[w.hashes[hi]]; ok && ts.Equal(vclock.Now()) {
+			w.onRequest(w.peers[pi], pushTyp, w.hashes[hi], false, &probe, true)
+			if w.excluded {
+				return
+			}
+			n = 1
+			evid.Count("a.announce.immediate-turn-during-stall")
+		} else {
+			w.fail("P5", "announce(P%d,h%d) while the outgoing queue was full left no trace: no request, no queued announcer, no pull registered at %v - h%d is absent and this announcer can never be asked",
+				pi, hi, w.now(), hi)
+			return
+		}
+	}
 	rec.immediate = n == 1
 	if !rec.immediate {
 		w.nPendingAnn++
+		if w.stalled {
+			evid.Count("a.announce.queued-during-stall")
+		}
 	}
 	// P1: the first announcer of an absent item is asked within the call
 	if len(hs.anns) == 1 && n != 1 {
@@ -474,6 +549,90 @@ func (w *world) arrive(hi int) {
 	}
 }
 
+const fillerTyp = 0xEE
+
+// stall fills the manager's outgoing queue the way a sender that stopped reading leaves it; resume empties it.
+func (w *world) stall() {
+	if w.stalled || w.excluded {
+		return
+	}
+	w.collect(false, nil)
+	ch := w.mgr.Requests()
+	for i := 0; len(ch) < cap(ch); i++ {
+		select {
+		case ch <- protocol.VerifC20Request(peer.ID("filler"), fillerTyp, common.Hash128{byte(i), byte(i >> 8), 0xEE}):
+		default:
+		}
+	}
+	w.stalled = true
+	w.nStalls++
+	w.logf("stall: the outgoing queue is full (%d requests nobody reads)", len(ch))
+}
+
+func (w *world) resume() {
+	if !w.stalled {
+		return
+	}
+	w.stalled = false
+	w.logf("resume: the sender reads the outgoing queue again")
+	if n := w.collect(false, nil); n != 0 && !w.excluded {
+		w.fail("P3", "%d request(s) sat in the full outgoing queue", n)
+	}
+}
+
+// fireInHas runs on the tracker's loop goroutine at the start of a look-up of loopHash.
+func (w *world) fireInHas(a action, loopHash common.Hash128) {
+	hs := w.hs[a.hash]
+	switch a.kind {
+	case 0:
+		if hs.arrived || len(hs.anns) == 0 || len(hs.anns)+1 < w.maxPar || w.stalled {
+			evid.Count("a.inhas.dropped")
+			return // would not take the queued path
+		}
+		w.logf("    announce(P%d,h%d) on another goroutine while the loop looks h%d up", a.peer, a.hash, w.hashIdx[loopHash])
+		hs.anns = append(hs.anns, annRec{peer: a.peer, hash: a.hash, at: w.now()})
+		w.inHasAnn = &hs.anns[len(hs.anns)-1]
+		w.nAnn++
+		w.nPendingAnn++
+		w.lastAction = w.now()
+		w.raceful = true
+		w.nInHas++
+		done := make(chan struct{})
+		w.bg.Add(1)
+		go func() {
+			defer w.bg.Done()
+			w.mgr.VerifC20AddPush(w.peers[a.peer], pushTyp, w.hashes[a.hash])
+			close(done)
+		}()
+		// the caller either gets through at once or waits for the loop's mutex; the harness does not wait for the latter
+		t0 := time.Now()
+		for {
+			select {
+			case <-done:
+				evid.Count("a.inhas.announce.returned-inside-lookup")
+				return
+			default:
+			}
+			if time.Since(t0) > 2*time.Millisecond {
+				evid.Count("a.inhas.announce.waited-for-the-loop")
+				return
+			}
+			runtime.Gosched()
+		}
+	case 1:
+		if hs.arrived {
+			evid.Count("a.inhas.dropped")
+			return
+		}
+		w.logf("    arrive(h%d) while the loop looks h%d up", a.hash, w.hashIdx[loopHash])
+		w.store(a.hash)
+		hs.arrived, hs.arrivedAt = true, w.now()
+		w.lastAction = w.now()
+		w.nInHas++
+		evid.Count("a.inhas.arrival")
+	}
+}
+
 // store makes the item known to the holder.
 func (w *world) store(hi int) {
 	if w.pool != nil {
@@ -486,10 +645,26 @@ func (w *world) store(hi int) {
 // step releases the earliest parked goroutine at instant t, lets it run until it
 // parks again, then lets the manager forward what the tracker emitted.
 func (w *world) step(t time.Time) {
+	atomic.StoreInt32(&w.inStep, 1)
+	defer atomic.StoreInt32(&w.inStep, 0)
 	if !vclock.StepTo(t) {
 		return
 	}
 	waitParked(2)
+	w.bg.Wait() // an announcement made inside the loop's look-up has returned
+	if w.inHasAnn != nil {
+		// should that announcement have been answered at once, the request is in the queue by now
+		rec := w.inHasAnn
+		w.inHasAnn = nil
+		probe := annRec{peer: rec.peer, hash: rec.hash}
+		if n := w.collect(false, &probe); n == 1 {
+			rec.immediate = true
+			w.nPendingAnn--
+		}
+		if w.excluded {
+			return
+		}
+	}
 	for fwd := true; fwd; {
 		select {
 		case r := <-w.tracker.Requests():
@@ -506,7 +681,11 @@ func (w *world) step(t time.Time) {
 					inconclusive("manager loop did not forward a tracker request")
 				}
 			}
-			w.collect(true, nil)
+			if w.stalled {
+				w.onRequest(r.Id, pushTyp, r.Hash, true, nil, true)
+			} else {
+				w.collect(true, nil)
+			}
 			if w.excluded {
 				return
 			}
@@ -558,6 +737,9 @@ func (w *world) advance(dt time.Duration) {
 func (w *world) finish() {
 	if w.excluded {
 		return
+	}
+	if w.stalled {
+		w.resume()
 	}
 	budget := time.Duration(w.nAnn+2) * w.delay
 	w.logf("drain(%v)", budget)
@@ -685,7 +867,8 @@ func capN(n, c int) string {
 }
 
 type action struct {
-	kind       int // 0 announce, 1 arrive, 2 advance, 3 arm an in-flight arrival
+	kind       int // 0 announce, 1 arrive, 2 advance, 3 arm an in-flight arrival, 4 stall/resume, 5 arm an event inside the loop's look-up
+	sub        int // kind 5: 0 announce, 1 arrive
 	peer, hash int
 	dt         time.Duration
 }
@@ -710,6 +893,15 @@ func runActionsWith(t tb, delay time.Duration, nH, nP int, acts []action, poolLi
 				w.logf("arm in-flight arrival of h%d", a.hash)
 				w.hs[a.hash].armInflight = true
 			}
+		case 4:
+			if w.stalled {
+				w.resume()
+			} else {
+				w.stall()
+			}
+		case 5:
+			w.logf("arm: next look-up of the loop meets %s(h%d)", map[int]string{0: "an announcement", 1: "the arrival"}[a.sub], a.hash)
+			w.armed = &action{kind: a.sub, peer: a.peer, hash: a.hash}
 		default:
 			if w.now()+a.dt < 58*time.Second {
 				w.advance(a.dt)
@@ -733,9 +925,17 @@ func TestSteppedSchedule(t *testing.T) {
 		dts := []time.Duration{time.Millisecond, 5 * time.Millisecond, 10 * time.Millisecond, 11 * time.Millisecond,
 			delay / 3, delay / 2, delay - time.Millisecond, delay, delay + time.Millisecond, delay + 10*time.Millisecond, 2*delay + 5*time.Millisecond}
 		n := rapid.IntRange(1, 45).Draw(t, "actions")
+		stalls := rapid.IntRange(0, 2).Draw(t, "stalledSenderPeriods") == 0
 		var acts []action
 		for i := 0; i < n; i++ {
-			switch k := rapid.IntRange(0, 9).Draw(t, "kind"); {
+			switch k := rapid.IntRange(0, 11).Draw(t, "kind"); {
+			case k == 10 && stalls:
+				acts = append(acts, action{kind: 4})
+			case k == 11:
+				a := action{kind: 5, sub: rapid.IntRange(0, 2).Draw(t, "inLookup") / 2, peer: rapid.IntRange(0, nP-1).Draw(t, "peer"), hash: rapid.IntRange(0, nH-1).Draw(t, "hash")}
+				if a.sub == 0 || !never[a.hash] {
+					acts = append(acts, a)
+				}
 			case k <= 5:
 				acts = append(acts, action{kind: 0, peer: rapid.IntRange(0, nP-1).Draw(t, "peer"), hash: rapid.IntRange(0, nH-1).Draw(t, "hash")})
 			case k == 6:
@@ -762,7 +962,13 @@ func TestSteppedSchedule(t *testing.T) {
 		w.classify()
 		evid.Count("a.case.completed")
 		// harness self-check: the schedule is a function of the draws only
-		if rapid.IntRange(0, 15).Draw(t, "replay") == 0 {
+		if w.nStalls > 0 {
+			evid.Count("a.case.with-stalled-sender")
+		}
+		if w.nInHas > 0 {
+			evid.Count("a.case.with-event-inside-lookup")
+		}
+		if rapid.IntRange(0, 15).Draw(t, "replay") == 0 && !w.raceful {
 			w2 := runActionsWith(t, delay, nH, nP, acts, poolLike)
 			if a, b := strings.Join(w.trace, "\n"), strings.Join(w2.trace, "\n"); a != b {
 				t.Fatalf("harness: the same actions produced two different request logs:\n%s\n--- second run ---\n%s", a, b)
